@@ -452,6 +452,18 @@ def chk_reduce(case, acc, seed):
     idx = case['seq']
     specs = [REDUCE_POOL[i] for i in idx]
     fields = [mkfield(s, seed) for s in specs]
+    if case.get('tilted'):
+        # Fields that carry different tilt records (every second one, and one shared object) overlap or not as their samples do
+        import lentil
+        shared = lentil.Tilt(x=1e-6, y=0)
+        for k, f in enumerate(fields):
+            if case['tilted'] == 'alternate' and k % 2 == 0:
+                f.tilt = [lentil.Tilt(x=1e-6 * (k + 1), y=-2e-6)]
+            elif case['tilted'] == 'shared':
+                f.tilt = [shared]
+            elif case['tilted'] == 'first' and k == 0:
+                f.tilt = [shared]
+        acc.cls('reduce:tilted')
     digs = [fdigest(f) for f in fields]
     total = {}
     for s in specs:
@@ -572,6 +584,9 @@ def t_reduce(arg, acc):
                 s2 = seq + [j]
                 acc.states += 1
                 chk_reduce({'kind': 'reduce', 'seq': s2}, acc, seed)
+                if len(s2) <= 3:
+                    for tl in ('alternate', 'shared', 'first'):
+                        chk_reduce({'kind': 'reduce', 'seq': s2, 'tilted': tl}, acc, seed)
                 nxt.append(s2)
         frontier = nxt
 
@@ -618,7 +633,7 @@ def run(tier, seed, acc, procs=None):
         'assumptions': ['one-element operands only at offset (0,0) (the only place the Plane/Wavefront API puts them)',
                         'merge of an infinite constant with a finite array is not representable and is left out',
                         'payloads are products of small primes (exact in binary floating point)'],
-        'require': {'large-merge': 9, 'same-object': 10, 'mul:overlap': 100, 'mul:disjoint': 100, 'mul:const': 10, 'merge:overlap': 100,
+        'require': {'large-merge': 9, 'same-object': 10, 'reduce:tilted': 100, 'mul:overlap': 100, 'mul:disjoint': 100, 'mul:const': 10, 'merge:overlap': 100,
                     'merge:disjoint': 100, 'insert:all': 10, 'insert:some': 100, 'insert:none': 100,
                     'insert:clip-top': 10, 'insert:clip-bottom': 10, 'insert:clip-left': 10,
                     'insert:clip-right': 10, 'extent:overlapping': 100, 'extent:disjoint': 100},
